@@ -440,3 +440,10 @@ PROPS["C05"]["level_text"] += " Stopped / interrupted transfers may end while th
 PROPS["C06"]["level_text"] += " Scrollback cases place finished trigger words at offsets 40..45 of the look-ahead window."
 PROPS["C13"]["level_text"] += " One profile parks several thousand small pieces during one handshake while the server answers late."
 PROPS["C18"]["level_text"] += " Pause points inside the buffer-probing phase are never thinned by the quick tier's stride."
+
+# ---- verdicts of tests that drive real processes (or rigs with waits of seconds) are confirmed alone (see bin/check and DESIGN §8.2) ----
+for _pid, _names in {"C14": ["TestVF_C14Seq", "TestVF_C14"], "C17": ["TestVF_C17", "TestVF_C17Overlap"], "C19": ["TestVF_C19"],
+                     "C05": ["TestVF_C05"], "C13": ["TestVF_C13"]}.items():
+    for _t in PROPS[_pid]["tests"]:
+        if _t["name"] in _names:
+            _t["confirm_alone"] = True
